@@ -30,3 +30,15 @@ for kind, conn in (("udp", UDPC), ("tcp", TCPC)):
         # the code as found (reproduces the defects listed in DESIGN.md section 7)
         mk(f"{kind}_{k}_asfound", kind, ka, 1, 1, 2, "FaultsFull", conn, 1, "{0}", "{0, 2}", "FALSE", fx="FxNone")
         mk(f"{kind}_{k}_nofixF", kind, ka, 1, 1, 2, "FaultsFull", conn, 1, "{0}", "{0, 2}", "FALSE", fx="FxNoF")
+
+
+# conformance instances (ConformProtocol.tla): one per (kind, keep-alive, retries); scripts come from the harness
+for kind in ("udp", "tcp"):
+    for ka in ("TRUE", "FALSE"):
+        k = "ka" if ka == "TRUE" else "nka"
+        for r in (0, 1, 2, 3):
+            with open(os.path.join(HERE, f"Conform_{kind}_{k}_r{r}.cfg"), "w") as f:
+                f.write("SPECIFICATION CSpec\nCHECK_DEADLOCK FALSE\nCONSTANTS\n")
+                f.write(f'  Kind = "{kind}"\n  KeepAlive = {ka}\n  Retries = {r}\n  T = 4\n  CT = 40\n  NCallers = 1\n  NReq = 3\n')
+                f.write('  Faults <- FaultsFull\n  ConnOuts = {"ok"}\n  MaxConnFail = 99\n  Offsets = {0}\n  Gaps = {0, 2}\n')
+                f.write("  Strict = TRUE\n  Horizon = 4000\n  Fx <- FxAll\n  Assume = FALSE\nINVARIANT CNoViolation\n")
